@@ -2,6 +2,7 @@ import BtcwVerif.Lemmas.InvPres
 import BtcwVerif.Lemmas.Rollback
 import BtcwVerif.Model.Ledger
 import BtcwVerif.Lemmas.RefFacts
+import BtcwVerif.Lemmas.RefExact
 /-!
 # C02 — reorgs converge; state depends on the surviving facts
 
@@ -407,5 +408,36 @@ example : ConsistentHistory {} exDirect := by
 example : SameFacts (ledgerAfter {} exReorg) (ledgerAfter {} exDirect) := by
   have : ledgerAfter {} exReorg = ledgerAfter {} exDirect := by decide
   rw [this]; exact SameFacts.refl _
+
+/-- **C02, path independence, EXACT** (tx3): under the hypotheses of `C02_path_independence` the two stores give the
+SAME answers, order included — not merely the same sets:
+* `Balance` for every maturity, `minConf`, `syncHeight`;
+* `UnspentOutputs`: the same list (confirmed outputs in ascending outpoint order, then the unconfirmed ones);
+* `TxDetails` of every hash: the same answer, credit and debit records in the same (index) order;
+* the unconfirmed batch of `RangeTransactions` (`rangeUnmined`): the same records in the same (hash) order.
+The buckets are in key order after every sequence of store calls (`sortedS_storeAfter`), so a cursor walk depends on the
+CONTENT of a bucket only.  What is left path-dependent, by design: the order of the transactions inside one BLOCK batch
+of `RangeTransactions` — the block record lists them in the order the wallet learned them (`C13_range_exact`), and
+`SameFacts` deliberately allows different delivery orders inside a block. -/
+theorem C02_path_independence_exact (es1 es2 : List Event) (hc1 : ConsistentHistory {} es1)
+    (hc2 : ConsistentHistory {} es2) (hf : SameFacts (ledgerAfter {} es1) (ledgerAfter {} es2)) :
+    ∃ s1 s2, storeAfter Store.empty {} es1 = .ok s1 ∧ storeAfter Store.empty {} es2 = .ok s2 ∧
+      (∀ mat m sy, balance s1 (ledgerAfter {} es1).now mat m sy = balance s2 (ledgerAfter {} es2).now mat m sy) ∧
+      unspentOutputs s1 (ledgerAfter {} es1).now = unspentOutputs s2 (ledgerAfter {} es2).now ∧
+      (∃ l, unspentOutputs s1 (ledgerAfter {} es1).now = .ok l) ∧
+      (∀ h, txDetails s1 h = txDetails s2 h ∧ ∃ o, txDetails s1 h = .ok o) ∧
+      rangeUnmined s1 = rangeUnmined s2 := by
+  obtain ⟨s1, h1, hg1, hn1, hs1⟩ := good_sorted_reachable es1 hc1
+  obtain ⟨s2, h2, hg2, hn2, hs2⟩ := good_sorted_reachable es2 hc2
+  refine ⟨s1, s2, h1, h2, ?_, utxos_path_independent hg1 hg2 hs1 hs2 hf, ?_, ?_,
+    rangeUnmined_path_independent hg1 hg2 hn1 hn2 hs1 hs2 hf⟩
+  · intro mat m sy
+    rw [balance_eq_storeTruth s1 (inv_of_wf _ hg1.wf2.wf), balance_eq_storeTruth s2 (inv_of_wf _ hg2.wf2.wf),
+      balance_refines hg1, balance_refines hg2, hf.balance_eq]
+  · obtain ⟨l, e, _⟩ := utxos_refines hg1
+    exact ⟨l, e⟩
+  · intro h
+    rw [details_refines_exact hg1 hn1 hs1 h, details_refines_exact hg2 hn2 hs2 h, hf.details_eq hg1.lwf hg2.lwf]
+    exact ⟨rfl, _, rfl⟩
 
 end TxStore.C02
